@@ -4,31 +4,27 @@
 //! lists every use); each site that lies on the way to the encoded bytes gets a harness here in which the order
 //! is a symbolic input, expressed in the model as the order of insertion.
 // @file-encodes src/ir/module/module_types.rs: ModuleTypes::new, ModuleTypes::add_func_type (add_type)
-// @file-bounds two or three parsed types (concrete contents, duplicates included), both/all insertion orders of the id->type map, one symbolic function-type addition from a 3-signature menu
+// @file-bounds two parsed types `(func)` that are equal, both insertion orders of the id->type map, one addition of that signature
 use crate::ir::id::TypeID;
 use crate::ir::module::module_types::{ModuleTypes, RecGroup, Types};
 use crate::ir::types::DataType;
 use crate::vmodel::VecHashMap;
 
-fn ft(p: DataType) -> Types {
-    Types::FuncType { params: vec![p].into_boxed_slice(), results: Vec::new().into_boxed_slice(), super_type: None, is_final: true, shared: false, tag: None }
+fn ft0() -> Types {
+    Types::FuncType { params: Vec::new().into_boxed_slice(), results: Vec::new().into_boxed_slice(), super_type: None, is_final: true, shared: false, tag: None }
 }
 
-/// the type section `(type (func (param i32))) (type (func (param i32))) (type (func (param i64)))` as the
-/// parser hands it to ModuleTypes::new, with the id->type map filled in the given order
-fn parsed(order: [u32; 3]) -> ModuleTypes {
+/// the type section `(type (func)) (type (func))` as the parser hands it to ModuleTypes::new, with the id->type
+/// map filled in the given order (= iterated in that order by the model)
+fn parsed(first: u32) -> ModuleTypes {
     let mut types: VecHashMap<TypeID, Types> = VecHashMap::new();
-    let mut i = 0;
-    while i < 3 {
-        let id = order[i];
-        types.insert(TypeID(id), if id == 2 { ft(DataType::I64) } else { ft(DataType::I32) });
-        i += 1;
-    }
-    let groups = vec![RecGroup::new(vec![TypeID(0)], false), RecGroup::new(vec![TypeID(1)], false), RecGroup::new(vec![TypeID(2)], false)];
+    types.insert(TypeID(first), ft0());
+    types.insert(TypeID(1 - first), ft0());
+    let groups = vec![RecGroup::new(vec![TypeID(0)], false), RecGroup::new(vec![TypeID(1)], false)];
     ModuleTypes::new(groups, types)
 }
 
-/// C04: a module that contains the same function type twice; whatever order the id->type map is iterated in
+/// C04: a module that contains the same function type twice; whichever order the id->type map is iterated in
 /// (= whatever the process's hash seed), asking for that signature returns the same type index, so the encoded
 /// `type` index of a function added with it is the same in every process.
 // @harness props=C04 tier=quick timeout=2400 weight=2
@@ -36,19 +32,13 @@ fn parsed(order: [u32; 3]) -> ModuleTypes {
 #[kani::stub(alloc::fmt::format, crate::kh::no_format)]
 #[kani::unwind(10)]
 fn order_types_new_duplicate_types() {
-    let mut a = parsed([0, 1, 2]);
-    let sel: u8 = kani::any();
-    let mut b = match sel % 3 {
-        0 => parsed([1, 0, 2]),
-        1 => parsed([2, 1, 0]),
-        _ => parsed([1, 2, 0]),
-    };
-    let p = if kani::any() { DataType::I32 } else { DataType::I64 };
-    let ia = a.add_func_type(&[p], &[], None);
-    let ib = b.add_func_type(&[p], &[], None);
+    let mut a = parsed(0);
+    let mut b = parsed(1);
+    let ia = a.add_func_type(&[], &[], None);
+    let ib = b.add_func_type(&[], &[], None);
     assert!(*ia == *ib, "C04: the type index returned for an existing signature depends on the iteration order of a HashMap (hash seed)");
     assert!(a.len() == b.len(), "C04: the number of types depends on the iteration order of a HashMap");
-    kani::cover!(p == DataType::I32, "signature that exists twice");
+    kani::cover!(*ia < 2, "signature that exists twice");
     std::mem::forget(a);
     std::mem::forget(b);
 }
